@@ -123,11 +123,7 @@ impl Integer {
     /// Returns the [IntegerType] of `self`.
     /// The [IntegerType] describes the absolute range of an integer
     pub fn int_type(&self) -> IntegerType {
-        self.constraints
-            .iter()
-            .fold(IntegerType::Unbounded, |acc, c| {
-                c.integer_constraints().max_restrictive(acc)
-            })
+        Constraint::integer_type_of(&self.constraints)
     }
 }
 
